@@ -110,10 +110,13 @@ class SharedMonitor(object):
         self.lock_protected = {}   # (id(obj), key) -> (obj, [values stored under a lock], mutated-later flag)
         self.lock_mutated = {}     # id(obj) -> obj: objects mutated while a lock was held
         self.unlocked_reads = {}   # (id(obj), name) -> where
+        self.lock_item_stores = {}  # (id(dict), repr(key)) -> (dict, [values stored while a lock was held])
+        self.unlocked_item_reads = {}  # (id(dict), repr(key)) -> where
         self.on_shared_write = on_shared_write
         self.seq = 0
         interp.store_hook = self.store
         interp.load_hook = self.load
+        interp.item_read_hook = self.item_read
 
     def where(self):
         info, line = self.interp.cur_stmt
@@ -144,6 +147,11 @@ class SharedMonitor(object):
             self.lock_mutated[oid] = obj
             if kind == 'attr':
                 self.lock_protected.setdefault((oid, key), (obj, []))[1].append(value)
+            elif kind == 'item':
+                try:
+                    self.lock_item_stores.setdefault((oid, repr(key)), (obj, []))[1].append(value)
+                except Exception:
+                    pass
         if kind in ('attr', 'item') and not is_immutable(value):
             # what is stored becomes reachable by every thread: from here on it is shared
             sub = reachable([value], limit=20000)
@@ -163,9 +171,33 @@ class SharedMonitor(object):
         if id(obj) in self.shared:
             self.unlocked_reads.setdefault((id(obj), name), self.where())
 
+    def item_read(self, container, key):
+        if self.held or id(container) not in self.shared:
+            return
+        try:
+            self.unlocked_item_reads.setdefault((id(container), repr(key)), self.where())
+        except Exception:
+            pass
+
+    def g5_violations(self):
+        """An entry that is stored more than once, with different values, while a lock is held must not be read outside
+        that lock: the reader could see the intermediate value (a marker, a half-made result)."""
+        out = []
+        for (oid, k), (obj, values) in self.lock_item_stores.items():
+            distinct = []
+            for v in values:
+                if not any(v is d or _canon(v) == _canon(d) for d in distinct):
+                    distinct.append(v)
+            if len(distinct) > 1 and (oid, k) in self.unlocked_item_reads:
+                out.append("%s reads %s[%s] outside the lock under which it takes %d different values in one call (%s)" % (
+                    self.unlocked_item_reads[(oid, k)], self.names.get(oid, type(obj).__name__), k[:60], len(distinct),
+                    ', '.join(type(d).__name__ for d in distinct)))
+        return out
+
     def close(self):
         self.interp.store_hook = None
         self.interp.load_hook = None
+        self.interp.item_read_hook = None
 
     # ---- the discipline
     def g2_violations(self):
@@ -224,6 +256,10 @@ def make_service(calls):
     return Svc
 
 
+def _listener(ctx, *a, **k):
+    return None
+
+
 def make_wsgi(family, calls):
     if family == 'soap11':
         inp, outp = Soap11(validator='soft'), Soap11()
@@ -235,8 +271,17 @@ def make_wsgi(family, calls):
         inp, outp = JsonDocument(validator='soft'), JsonDocument()
     else:
         inp, outp = HttpRpc(validator='soft'), JsonDocument()
-    app = Application([make_service(calls)], TNS, name='VApp', in_protocol=inp, out_protocol=outp)
-    return WsgiApplication(app)
+    svc = make_service(calls)
+    app = Application([svc], TNS, name='VApp', in_protocol=inp, out_protocol=outp)
+    # listeners at every level, so that the firing code paths of the shared event managers are exercised
+    for mgr in (app.event_manager, svc.event_manager, inp.event_manager, outp.event_manager):
+        for ev in ('method_call', 'method_return_object', 'method_exception_object', 'method_return_string',
+                   'before_deserialize', 'after_serialize'):
+            mgr.add_listener(ev, _listener)
+    w = WsgiApplication(app)
+    for ev in ('wsgi_call', 'wsgi_return', 'wsgi_close'):
+        w.event_manager.add_listener(ev, _listener)
+    return w
 
 
 def requests_for(family):
@@ -459,6 +504,7 @@ def _mk_discipline(family):
         c.check('validator_state_is_not_shared', not validator, detail=validator[:3])
         c.check('published_values_are_complete', not mon.g2_violations(), detail=mon.g2_violations()[:5])
         c.check('lock_state_read_only_if_immutable', not mon.g4_violations(), detail=mon.g4_violations()[:5])
+        c.check('no_intermediate_value_visible_outside_the_lock', not mon.g5_violations(), detail=mon.g5_violations()[:5])
         c.check('locks_released', not mon.held, detail=mon.lock_events[-6:])
         c.emit('shared_writes', mon.summary())
     return ob
